@@ -258,8 +258,22 @@ def _shared_prefix(kname):
     sq = rows == cols
     x, X, xr, XR = arr([cols], dt, 51), arr([cols, 2], dt, 52), arr([rows], dt, 53), arr([2, rows], dt, 69)
     R = {"k": "ref", "slot": slot}
-    steps = [mk(slot, rec)]
-    menu = [("to_dense", [call("to_dense", A=S(slot))]), ("flatten", [call("flatten", A=S(slot))]),
+    up = {"f4": "f8", "f8": "c16", "c16": "c16", "c8": "c16"}[dt]  # an operand of a wider dtype: the product promotes
+
+    def reseed(o):
+        if isinstance(o, dict):
+            return {k: (v + 1000 if k == "seed" else reseed(v)) for k, v in o.items()}
+        if isinstance(o, list):
+            return [reseed(v) for v in o]
+        return o
+
+    # t2: ANOTHER operator of the same kind and shape (other entries) -- what a second caller thread typically works on
+    steps = [mk(slot, rec), mk("t2", reseed(json.loads(json.dumps(rec))))]
+    xu, xru = arr([cols, 2], up, 65), arr([rows], up, 66)
+    menu = [("mv_promote", [call("matvec", A=S(slot), x=xu)]), ("rmv_promote", [call("rmatvec", A=S(slot), x=xru)]),
+            ("t2_mv_promote", [call("matvec", A=S("t2"), x=xu)]), ("t2_rmv_promote", [call("rmatvec", A=S("t2"), x=xru)]),
+            ("t2_mm", [call("matvec", A=S("t2"), x=X)]), ("t2_to_dense", [call("to_dense", A=S("t2"))]),
+            ("to_dense", [call("to_dense", A=S(slot))]), ("flatten", [call("flatten", A=S(slot))]),
             ("mv", [call("matvec", A=S(slot), x=x)]), ("mm", [call("matvec", A=S(slot), x=X)]),
             ("rmv", [call("rmatvec", A=S(slot), x=xr)]), ("rmm", [call("rmatvec", A=S(slot), x=XR)]),
             ("T_use", [mk("t_T", {"k": "T", "of": R}), ]), ("H", [mk("t_H", {"k": "H", "of": R})]),
@@ -338,7 +352,9 @@ def observer_programs(tier):
     return out
 
 
-PARTNERS = ["mm", "psd_solve_cg_obj", "psd_trace_hutch_obj", "to_dense", "psd_sqrt_lanczos_obj", "solve_gmres_obj"]
+PARTNERS = ["mm", "psd_solve_cg_obj", "psd_trace_hutch_obj", "to_dense", "psd_sqrt_lanczos_obj", "solve_gmres_obj", "t2_mv_promote", "t2_mm"]
+TWIN_PARTNER = {"mv_promote": "t2_mv_promote", "rmv_promote": "t2_rmv_promote", "mm": "t2_mm", "to_dense": "t2_to_dense",
+                "t2_mv_promote": "mv_promote"}  # the same operation on the other operator of equal shape
 
 
 def line_sweep_programs(tier, seed=0):
@@ -363,6 +379,8 @@ def line_sweep_programs(tier, seed=0):
                 partners = [partners[h % len(partners)]]
                 if name in partners or not name.startswith(("psd_", "solve", "inv", "eig", "mm", "rmm")):
                     partners = [p for p in ("psd_solve_cg_obj", ) if p in m] if name.endswith("_obj") or name.endswith("_block") else []
+            if name in TWIN_PARTNER and TWIN_PARTNER[name] not in partners:
+                partners = partners + [TWIN_PARTNER[name]]
             for pn in partners:
                 out.append({"name": "threads18-line-sweep/%s<-%s/%s" % (name, pn, k),
                             "program": _prog(steps, [{"calls": items}, {"observe": 1, "calls": m[pn]}], "line_sweep",
